@@ -1,6 +1,7 @@
 (* C09, datagram stack: what holds for the machine of Model/ConnD.v for every handshake layer,
-   record protection, replay verdict, clock and datagram sequence, and what does not (findings
-   K12, K13, K14). *)
+   record protection, replay verdict, clock and datagram sequence; what does not (finding K15: the
+   retry recursion of readRecordOrCCS); and that the bounds fail for the code before fixes
+   1e7de38 (K12), 593205a (K13), 6b259b8 (K14). *)
 From V Require Import Model.Codec Model.ConnT Model.Fragment Model.ConnD Proofs.FragmentProofs.
 From Coq Require Import ZArith ZifyNat ZifyN ZifyBool Lia FinFun.
 Open Scope nat_scope.
@@ -14,6 +15,10 @@ Ltac break_match :=
   | |- context [match ?x with _ => _ end] => let E := fresh "E" in destruct x eqn:E
   end.
 
+(* what readHandshake still accepts in handBuf while it waits: less than a header, or less than
+   the fragment the header announces *)
+Definition handWaitD : nat := dHeaderLen + maxHandshakeT - 1.
+
 Section DInv.
   Variable S : Type.
   Variable on_msg : S -> bytes -> option (S * want * option N).
@@ -22,64 +27,73 @@ Section DInv.
   Variable fresh : nat -> bool.
   Variable dwell_time : nat -> bool.
   Variable has_flight : bool.
-  Variable fix11 : bool.
 
   Notation dconn := (dconn S).
   Notation process := (process S on_ccs dec fresh dwell_time has_flight).
   Notation ddrive := (ddrive S on_msg on_ccs).
   Notation dafter := (dafter S on_msg on_ccs).
-  Notation drun := (drun S on_msg on_ccs dec fresh dwell_time has_flight fix11).
+  Notation drun := (drun S on_msg on_ccs dec fresh dwell_time has_flight).
 
-  (* the part of the state readRecordOrCCS does not touch, and what it does to the rest *)
+  Ltac hfields :=
+    cbn [fst ConnD.dkill ConnD.set_alive ConnD.set_raw ConnD.set_n ConnD.set_retry ConnD.set_dwell ConnD.set_deferred
+         ConnD.set_epoch ConnD.set_ccs_done ConnD.set_cipher ConnD.set_delivered ConnD.set_hand
+         ConnD.set_pend ConnD.set_counted ConnD.set_freads ConnD.set_calls ConnD.set_want ConnD.set_hs
+         ConnD.set_vers ConnD.set_entry ConnD.set_frames ConnD.new_call ConnD.move_on ConnD.enter_call
+         d_pend d_calls d_freads d_counted d_want d_hs d_retry d_alive d_raw d_hand d_n
+         d_deferred d_entry d_frames d_ccs_done] in *.
+
+  (* the part of the state readRecordOrCCS does not touch *)
   Definition same_hs (c c1 : dconn) : Prop :=
-    d_pend c1 = d_pend c /\ d_iters c1 = d_iters c /\ d_calls c1 = d_calls c /\
+    d_pend c1 = d_pend c /\ d_calls c1 = d_calls c /\
     d_freads c1 = d_freads c /\ d_counted c1 = d_counted c /\ d_want c1 = d_want c /\
-    d_hs c1 = d_hs c /\ d_depth c1 = d_depth c.
+    d_hs c1 = d_hs c.
 
-  Lemma dretry_fields : forall c : dconn,
-    same_hs c (dretry_or_die S c) /\ d_hand (dretry_or_die S c) = d_hand c /\ d_raw (dretry_or_die S c) = d_raw c /\
-    d_retry (dretry_or_die S c) = Datatypes.S (d_retry c) /\
-    (d_alive (dretry_or_die S c) = true -> Datatypes.S (d_retry c) <= 16).
-  Proof.
-    intros c. unfold dretry_or_die, same_hs. destruct (maxUselessRecords <? Datatypes.S (d_retry c)) eqn:E; cbn.
-    - repeat split; auto. intros; discriminate.
-    - apply Nat.ltb_ge in E. unfold maxUselessRecords in E. repeat split; auto.
-  Qed.
+  (* the frame of readRecordOrCCS: the same one, or a new one entered through retryReadRecord *)
+  Definition same_frame (c c1 : dconn) : Prop := d_entry c1 = d_entry c /\ d_frames c1 = d_frames c.
+  Definition new_frame (c c1 : dconn) : Prop :=
+    d_hand c1 = d_hand c /\ d_entry c1 = length (d_hand c) /\ d_frames c1 = Datatypes.S (d_frames c) /\ d_raw c1 = [].
 
   Definition retry_ok (c : dconn) : Prop := d_retry c <= 17 /\ (d_alive c = true -> d_retry c <= 16).
+
+  Lemma same_hs_refl : forall c : dconn, same_hs c c.
+  Proof. intros; unfold same_hs; auto 10. Qed.
+  Lemma same_frame_refl : forall c : dconn, same_frame c c.
+  Proof. intros; unfold same_frame; auto. Qed.
+
+  Lemma dretry_fields : forall c : dconn, retry_ok c -> d_alive c = true ->
+    let c1 := dretry_or_die S c in
+    same_hs c c1 /\ d_hand c1 = d_hand c /\ d_raw c1 = d_raw c /\ retry_ok c1 /\
+    (same_frame c c1 /\ d_alive c1 = false \/
+     d_entry c1 = length (d_hand c) /\ d_frames c1 = Datatypes.S (d_frames c)).
+  Proof.
+    intros c [R1 R2] Ha. specialize (R2 Ha). cbn zeta. unfold dretry_or_die.
+    destruct (maxUselessRecords <? Datatypes.S (d_retry c)) eqn:E; unfold same_hs, same_frame, retry_ok; hfields.
+    - repeat split; auto; try lia; try (intros; discriminate).
+    - apply Nat.ltb_ge in E. unfold maxUselessRecords in E. repeat split; auto; try lia.
+  Qed.
 
   (* what one trip through the record switch may do, relative to the state c it starts from
      (whose rawInputBuf is already advanced past the record) *)
   Definition sw_ok (data : bytes) (hs_done expect : bool) (c c1 : dconn) : Prop :=
     same_hs c c1 /\ retry_ok c1 /\
     (d_alive c1 = true -> length (d_raw c1) <= length (d_raw c)) /\
-    (d_hand c1 = d_hand c \/
-     (d_hand c1 = d_hand c ++ data /\ 0 < length data /\ d_appended c1 = true /\
-      hs_done = false /\ expect = false)) /\
-    (d_appended c = true -> d_appended c1 = true).
-
-  Ltac fields :=
-    cbn [fst ConnD.dkill ConnD.set_alive ConnD.set_raw ConnD.set_n ConnD.set_retry ConnD.set_dwell ConnD.set_deferred
-         ConnD.set_epoch ConnD.set_ccs_done ConnD.set_cipher ConnD.set_delivered ConnD.set_appended ConnD.set_hand
-         d_pend d_iters d_calls d_freads d_counted d_want d_hs d_depth d_retry d_alive d_raw d_hand d_appended] in *.
+    (d_hand c1 = d_hand c /\ (same_frame c c1 \/ new_frame c c1) \/
+     (d_hand c1 = d_hand c ++ data /\ 0 < length data /\ hs_done = false /\ expect = false /\ same_frame c c1 /\ d_alive c1 = true)).
 
   Lemma sw_refl_like : forall dt hs_done expect (c c1 : dconn),
     same_hs c c1 -> d_retry c1 = d_retry c -> (d_alive c1 = true -> d_alive c = true) ->
-    length (d_raw c1) <= length (d_raw c) -> d_hand c1 = d_hand c -> d_appended c1 = d_appended c ->
+    length (d_raw c1) <= length (d_raw c) -> d_hand c1 = d_hand c -> same_frame c c1 ->
     retry_ok c -> sw_ok dt hs_done expect c c1.
   Proof.
     intros dt hd ex c c1 H1 H2 H3 H4 H5 H6 [R1 R2]. unfold sw_ok, retry_ok.
-    rewrite H2, H5, H6. split; [exact H1|]. split; [split; [exact R1|intros A; apply R2; auto]|].
-    split; [intros; exact H4|]. split; [left; reflexivity|auto].
+    rewrite H2. split; [exact H1|]. split; [split; [exact R1|intros A; apply R2; auto]|].
+    split; [intros; exact H4|]. left; auto.
   Qed.
-
-  Lemma same_hs_refl : forall c : dconn, same_hs c c.
-  Proof. intros; unfold same_hs; auto 10. Qed.
 
   Lemma sw_kill : forall dt hd ex (c : dconn), retry_ok c -> sw_ok dt hd ex c (dkill S c).
   Proof.
-    intros dt hd ex c [R1 R2]. unfold sw_ok, retry_ok, same_hs. fields.
-    repeat split; auto; try lia; intros; discriminate.
+    intros dt hd ex c [R1 R2]. unfold sw_ok, retry_ok, same_hs, same_frame. hfields.
+    repeat split; auto 10; try lia; try (intros; discriminate).
   Qed.
 
   Lemma p_alert_ok : forall hd ex (c : dconn) data, retry_ok c -> d_alive c = true ->
@@ -89,13 +103,18 @@ Section DInv.
     destruct data as [|lvl [|code [|x t]]]; try (apply sw_kill; exact R).
     destruct (code =? 0)%N; [apply sw_kill; exact R|].
     destruct (lvl =? 1)%N; [|apply sw_kill; exact R].
-    cbn [fst]. destruct (dretry_fields (set_raw S c [])) as (F1 & F2 & F3 & F4 & F5).
-    destruct R as [R1 R2]. specialize (R2 Ha).
-    unfold sw_ok, retry_ok. rewrite F2, F3, F4. fields.
-    split. { unfold same_hs in *. fields. intuition congruence. }
-    split. { split; [lia|]. intros A. apply F5 in A. lia. }
-    split; [intros; cbn; lia|]. split; [left; reflexivity|].
-    unfold dretry_or_die. destruct (_ <? _); fields; auto.
+    cbn [fst].
+    assert (R' : retry_ok (set_raw S c [])) by (destruct R; split; hfields; auto).
+    assert (Ha' : d_alive (set_raw S c []) = true) by (hfields; exact Ha).
+    destruct (dretry_fields (set_raw S c []) R' Ha') as (F1 & F2 & F3 & F4 & F5).
+    hfields. unfold sw_ok.
+    split. { unfold same_hs in *. hfields. exact F1. }
+    split; [exact F4|].
+    split; [intros _; rewrite F3; cbn; lia|].
+    left. split; [exact F2|].
+    destruct F5 as [[F5 _]|[F5 F6]].
+    - left. unfold same_frame in *. hfields. exact F5.
+    - right. unfold new_frame. hfields. auto.
   Qed.
 
   Lemma p_ccs_ok : forall hd ex (c : dconn) data rest idx, retry_ok c -> d_alive c = true ->
@@ -106,24 +125,25 @@ Section DInv.
     destruct one as [|[p|p|]]; try (apply sw_kill; exact R).
     destruct tl; [|apply sw_kill; exact R].
     destruct (hd && d_dwell c && dwell_time idx && has_flight).
-    { cbn [fst]. apply sw_refl_like; auto using same_hs_refl. }
+    { cbn [fst]. apply sw_refl_like; auto using same_hs_refl, same_frame_refl. }
     set (c' := if hd && d_dwell c then set_dwell S c false else c).
     assert (Hc' : same_hs c c' /\ d_retry c' = d_retry c /\ d_alive c' = d_alive c /\ d_raw c' = d_raw c /\
-                  d_hand c' = d_hand c /\ d_appended c' = d_appended c).
-    { unfold c'. destruct (hd && d_dwell c); unfold same_hs; fields; auto 15. }
+                  d_hand c' = d_hand c /\ same_frame c c').
+    { unfold c'. destruct (hd && d_dwell c); unfold same_hs, same_frame; hfields; auto 15. }
     destruct Hc' as (S1 & S2 & S3 & S4 & S5 & S6).
+    assert (G : forall c2 : dconn, same_hs c' c2 -> d_retry c2 = d_retry c' -> (d_alive c2 = true -> d_alive c' = true) ->
+                 d_raw c2 = d_raw c' -> d_hand c2 = d_hand c' -> same_frame c' c2 -> sw_ok (1%N :: nil) hd ex c c2).
+    { intros c2 T1 T2 T3 T4 T5 T6.
+      apply sw_refl_like; [unfold same_hs in *; intuition congruence | congruence
+                          | intros A; rewrite <- S3; apply T3; exact A | rewrite T4, S4; lia | congruence
+                          | unfold same_frame in *; intuition congruence | exact R]. }
     destruct (negb ex && negb (empty (d_hand c'))).
-    { cbn [fst]. apply sw_refl_like; fields; auto; try lia; try congruence; try (rewrite S4; lia);
-      try (unfold same_hs in *; fields; intuition congruence). }
+    { cbn [fst]. apply G; unfold same_hs, same_frame; hfields; auto 10. }
     destruct (negb ex).
-    { cbn [fst]. apply sw_refl_like; fields; auto; try lia; try congruence; try (rewrite S4; lia). }
+    { cbn [fst]. apply G; auto using same_hs_refl, same_frame_refl. }
     destruct (on_ccs (d_hs c')) as [sw|].
-    2:{ cbn [fst]. apply sw_refl_like; fields; auto; try lia; try congruence; try (rewrite S4; lia);
-        try (intros; discriminate); try (unfold same_hs in *; fields; intuition congruence). }
-    assert (G : forall a, sw_ok (1%N :: nil) hd ex c (set_epoch S (set_ccs_done S (set_cipher S c' true) true) a)).
-    { intros a. apply sw_refl_like; fields; auto; try lia; try congruence; try (rewrite S4; lia);
-      try (unfold same_hs in *; fields; intuition congruence). }
-    destruct (0 <? length rest); cbn [fst]; apply G.
+    2:{ cbn [fst]. apply G; unfold same_hs, same_frame; hfields; auto 10. intros; discriminate. }
+    destruct (0 <? length rest); cbn [fst]; apply G; unfold same_hs, same_frame; hfields; auto 10.
   Qed.
 
   Lemma p_app_ok : forall hd ex (c : dconn) data, retry_ok c -> d_alive c = true ->
@@ -131,20 +151,20 @@ Section DInv.
   Proof.
     intros hd ex c data R Ha. unfold p_app.
     destruct (negb hd || ex); [apply sw_kill; exact R|].
-    destruct (length data =? 0); cbn [fst]; apply sw_refl_like; fields; auto; unfold same_hs; fields; auto 10.
+    destruct (length data =? 0); cbn [fst]; apply sw_refl_like; hfields; auto; unfold same_hs, same_frame; hfields; auto 10.
   Qed.
 
   Lemma p_hs_ok : forall hd ex (c : dconn) data rest idx, retry_ok c -> d_alive c = true ->
     sw_ok data hd ex c (fst (p_hs S dwell_time c data rest idx hd ex)).
   Proof.
     intros hd ex c data rest idx R Ha. unfold p_hs.
-    destruct (hd && d_dwell c && dwell_time idx); [cbn [fst]; apply sw_refl_like; auto using same_hs_refl|].
+    destruct (hd && d_dwell c && dwell_time idx); [cbn [fst]; apply sw_refl_like; auto using same_hs_refl, same_frame_refl|].
     destruct (length data =? 0) eqn:El; [apply sw_kill; exact R|].
-    destruct ex; [cbn [fst]; apply sw_refl_like; auto using same_hs_refl|].
-    destruct hd; [cbn [fst]; apply sw_refl_like; auto using same_hs_refl|].
+    destruct ex; [cbn [fst]; apply sw_refl_like; auto using same_hs_refl, same_frame_refl|].
+    destruct hd; [cbn [fst]; apply sw_refl_like; auto using same_hs_refl, same_frame_refl|].
     apply Nat.eqb_neq in El.
-    assert (G : sw_ok data false false c (set_appended S (set_hand S c (d_hand c ++ data)) true)).
-    { destruct R as [R1 R2]. unfold sw_ok, retry_ok, same_hs. fields.
+    assert (G : sw_ok data false false c (set_hand S c (d_hand c ++ data))).
+    { destruct R as [R1 R2]. unfold sw_ok, retry_ok, same_hs, same_frame. hfields.
       repeat split; auto; try lia. right. repeat split; auto. lia. }
     destruct (_ && _); cbn [fst]; exact G.
   Qed.
@@ -160,7 +180,6 @@ Section DInv.
     apply sw_kill; auto.
   Qed.
 
-
   (* record protection never expands: the plaintext is no longer than the protected fragment
      (CBC strips IV, MAC and padding; GCM strips nonce and tag; the null cipher is the identity) *)
   Hypothesis dec_short : forall ci typ body data, dec ci typ body = Some data -> length data <= length body.
@@ -168,26 +187,25 @@ Section DInv.
   Definition body_ok (hd ex : bool) (body rest : bytes) (c c1 : dconn) : Prop :=
     same_hs c c1 /\ retry_ok c1 /\
     (d_alive c1 = true -> length (d_raw c1) <= length rest) /\
-    (d_hand c1 = d_hand c \/
+    (d_hand c1 = d_hand c /\ (same_frame c c1 \/ (d_entry c1 = length (d_hand c) /\ d_frames c1 = Datatypes.S (d_frames c) /\ d_raw c1 = [])) \/
      (exists data, d_hand c1 = d_hand c ++ data /\ 0 < length data /\ length data <= maxPlaintext /\
-                   length data <= length body /\ d_appended c1 = true /\ hd = false /\ ex = false)) /\
-    (d_appended c = true -> d_appended c1 = true).
+                   length data <= length body /\ hd = false /\ ex = false /\ same_frame c c1 /\ d_alive c1 = true)).
 
   Lemma body_ok_same : forall hd ex body rest (c c2 : dconn),
     retry_ok c -> d_alive c = true ->
     same_hs c c2 -> d_retry c2 = d_retry c -> d_hand c2 = d_hand c ->
-    d_appended c2 = d_appended c -> length (d_raw c2) <= length rest ->
+    same_frame c c2 -> length (d_raw c2) <= length rest ->
     body_ok hd ex body rest c c2.
   Proof.
-    intros hd ex body rest c c2 [R1 R2] Ha S1 S2 S3 S4 S5. unfold body_ok, retry_ok. rewrite S2, S3, S4.
+    intros hd ex body rest c c2 [R1 R2] Ha S1 S2 S3 S4 S5. unfold body_ok, retry_ok. rewrite S2.
     split; [exact S1|]. split; [split; [exact R1|intros _; apply R2; exact Ha]|].
-    split; [intros _; exact S5|]. split; [left; reflexivity|auto].
+    split; [intros _; exact S5|]. left; auto.
   Qed.
 
   Lemma body_ok_kill : forall hd ex body rest (c : dconn), retry_ok c -> body_ok hd ex body rest c (dkill S c).
   Proof.
-    intros hd ex body rest c [R1 R2]. unfold body_ok, retry_ok, same_hs. fields.
-    repeat split; auto; try lia; intros; discriminate.
+    intros hd ex body rest c [R1 R2]. unfold body_ok, retry_ok, same_hs, same_frame. hfields.
+    repeat split; auto 10; try lia; try (intros; discriminate).
   Qed.
 
   Lemma p_body_ok : forall hd ex (c : dconn) typ epoch body rest idx, retry_ok c -> d_alive c = true ->
@@ -195,36 +213,41 @@ Section DInv.
   Proof.
     intros hd ex c typ epoch body rest idx R Ha. unfold p_body.
     destruct (negb (epoch =? d_epoch c)%N).
-    { cbn [fst]. apply body_ok_same; fields; auto. unfold same_hs; fields; auto 10. }
-    destruct (dec (d_cipher c) typ body) as [data|] eqn:Ed; [|apply body_ok_kill; exact R].
+    { cbn [fst]. apply body_ok_same; hfields; auto; unfold same_hs, same_frame; hfields; auto 10. }
+    destruct (dec (d_cipher c) typ body) as [data|] eqn:Ed.
+    2:{ destruct hd; cbn [fst]; [|apply body_ok_kill; exact R].
+        apply body_ok_same; hfields; auto; unfold same_hs, same_frame; hfields; auto 10. }
     apply dec_short in Ed.
     destruct ((typ =? 20)%N && negb ex && negb hd && empty (d_hand c)).
-    { cbn [fst]. apply body_ok_same; fields; auto. unfold same_hs; fields; auto 10. }
+    { cbn [fst]. apply body_ok_same; hfields; auto; unfold same_hs, same_frame; hfields; auto 10. }
     destruct (negb (fresh idx)).
-    { cbn [fst]. apply body_ok_same; fields; auto. unfold same_hs; fields; auto 10. }
+    { cbn [fst]. apply body_ok_same; hfields; auto; unfold same_hs, same_frame; hfields; auto 10. }
     destruct (maxPlaintext <? length data) eqn:Emp; [apply body_ok_kill; exact R|]. apply Nat.ltb_ge in Emp.
     destruct (negb (d_cipher c) && (typ =? 23)%N); [apply body_ok_kill; exact R|].
     set (cr := if negb (typ =? 21)%N && negb (typ =? 20)%N && (0 <? length data) then set_retry S c 0 else c).
     assert (Hcr : same_hs c cr /\ retry_ok cr /\ d_alive cr = true /\ d_hand cr = d_hand c /\
-                  d_appended cr = d_appended c /\ d_raw cr = d_raw c).
+                  same_frame c cr /\ d_raw cr = d_raw c).
     { unfold cr. destruct (_ && _ && _).
-      - unfold same_hs, retry_ok. fields. repeat split; auto; lia.
+      - unfold same_hs, retry_ok, same_frame. hfields. repeat split; auto; lia.
       - repeat split; auto using same_hs_refl; apply R. }
     destruct Hcr as (C1 & C2 & C3 & C4 & C5 & C6). clearbody cr.
     set (c2 := set_raw S cr rest).
     assert (D : sw_ok data hd ex c2 (fst (dispatch S on_ccs dwell_time has_flight c2 typ data rest idx hd ex))).
-    { apply dispatch_ok; unfold c2; fields; auto. }
-    destruct D as (D1 & D2 & D3 & D4 & D5).
-    assert (S2 : same_hs c c2) by (unfold c2, same_hs in *; fields; intuition congruence).
-    assert (H2 : d_hand c2 = d_hand c) by (unfold c2; fields; congruence).
-    assert (A2 : d_appended c2 = d_appended c) by (unfold c2; fields; congruence).
-    assert (R2 : d_raw c2 = rest) by (unfold c2; fields; reflexivity).
-    rewrite H2, A2, R2 in *.
+    { apply dispatch_ok; unfold c2; hfields; auto. }
+    destruct D as (D1 & D2 & D3 & D4).
+    assert (S2 : same_hs c c2) by (unfold c2, same_hs in *; hfields; intuition congruence).
+    assert (H2 : d_hand c2 = d_hand c) by (unfold c2; hfields; congruence).
+    assert (A2 : same_frame c c2) by (unfold c2, same_frame in *; hfields; intuition congruence).
+    assert (R2 : d_raw c2 = rest) by (unfold c2; hfields; reflexivity).
+    rewrite H2, R2 in *.
     unfold body_ok.
     split. { unfold same_hs in *. intuition congruence. }
-    split; [exact D2|]. split; [exact D3|]. split; [|exact D5].
-    destruct D4 as [D4|(E1 & E2 & E3 & E4 & E5)]; [left; exact D4|].
-    right. exists data. repeat split; auto.
+    split; [exact D2|]. split; [exact D3|].
+    destruct D4 as [[D4 D5]|(E1 & E2 & E3 & E4 & E5 & E6)].
+    - left. split; [exact D4|]. destruct D5 as [D5|(N1 & N2 & N3 & N4)].
+      + left. unfold same_frame in *. intuition congruence.
+      + right. unfold same_frame in A2. destruct A2 as [A21 A22]. rewrite H2 in N2. rewrite A22 in N3. auto.
+    - right. exists data. unfold same_frame in *. repeat split; auto; intuition congruence.
   Qed.
 
   (* one trip through the loop of readRecordOrCCS *)
@@ -233,10 +256,9 @@ Section DInv.
     (d_alive c1 = true ->
        length (d_raw c1) + dRecordHeaderLen <= length (d_raw c) /\
        length (d_hand c1) + length (d_raw c1) + dRecordHeaderLen <= length (d_hand c) + length (d_raw c)) /\
-    (d_hand c1 = d_hand c \/
+    (d_hand c1 = d_hand c /\ (same_frame c c1 \/ (d_entry c1 = length (d_hand c) /\ d_frames c1 = Datatypes.S (d_frames c) /\ d_raw c1 = [])) \/
      (exists data, d_hand c1 = d_hand c ++ data /\ 0 < length data /\ length data <= maxPlaintext /\
-                   d_appended c1 = true /\ d_want c <> WApp /\ (d_want c = WCcs -> d_ccs_done c = true))) /\
-    (d_appended c = true -> d_appended c1 = true).
+                   same_frame c c1 /\ d_want c <> WApp /\ (d_want c = WCcs -> d_ccs_done c = true) /\ d_alive c1 = true)).
 
   Lemma process_ok : forall c : dconn,
     d_alive c = true -> retry_ok c -> dRecordHeaderLen <= length (d_raw c) ->
@@ -245,9 +267,15 @@ Section DInv.
     intros c Ha R Hraw. unfold ConnD.process. cbn zeta.
     set (n := N.to_nat (b16 (nth0 (d_raw c) 11) (nth0 (d_raw c) 12))).
     assert (K : proc_ok c (dkill S c)).
-    { destruct R as [R1 R2]. unfold proc_ok, retry_ok, same_hs. fields.
-      repeat split; auto; try lia; intros; discriminate. }
-    destruct (match d_vers c with Some v => _ | None => _ end); [exact K|].
+    { destruct R as [R1 R2]. unfold proc_ok, retry_ok, same_hs, same_frame. hfields.
+      repeat split; auto 10; try lia; try (intros; discriminate). }
+    assert (Dr : proc_ok c (set_raw S c [])).
+    { destruct R as [R1 R2]. unfold proc_ok, retry_ok, same_hs, same_frame. hfields.
+      repeat split; auto 10; try (cbn [length]; lia). }
+    destruct (match d_vers c with Some v => _ | None => false end).
+    { destruct (want_eqb (d_want c) WApp); cbn [fst]; assumption. }
+    destruct (match d_vers c with Some _ => false | None => _ end); [exact K|].
+    destruct (want_eqb (d_want c) WApp && _); [exact Dr|].
     destruct (maxCiphertext <? n); [exact K|].
     destruct (length (d_raw c) <? dRecordHeaderLen + n) eqn:El; [exact K|].
     apply Nat.ltb_ge in El.
@@ -258,32 +286,35 @@ Section DInv.
     { unfold body. rewrite firstn_length, skipn_length. lia. }
     assert (Lr : length rest + dRecordHeaderLen + n = length (d_raw c)).
     { unfold rest. rewrite skipn_length. lia. }
-    assert (R' : retry_ok c') by (destruct R; split; unfold c'; fields; auto).
-    assert (Ha' : d_alive c' = true) by (unfold c'; fields; exact Ha).
+    assert (R' : retry_ok c') by (destruct R; split; unfold c'; hfields; auto).
+    assert (Ha' : d_alive c' = true) by (unfold c'; hfields; exact Ha).
     pose proof (p_body_ok (want_eqb (d_want c) WApp) (want_eqb (d_want c) WCcs && negb (d_ccs_done c))
                   c' (nth0 (d_raw c) 0) (b16 (nth0 (d_raw c) 3) (nth0 (d_raw c) 4)) body rest (d_n c) R' Ha') as B.
-    destruct B as (B1 & B2 & B3 & B4 & B5).
-    assert (E' : same_hs c c' /\ d_hand c' = d_hand c /\ d_appended c' = d_appended c /\ d_want c' = d_want c /\ d_ccs_done c' = d_ccs_done c)
-      by (unfold c', same_hs; fields; auto 15).
-    destruct E' as (E1 & E2 & E3 & E4 & E5). rewrite E2, E3 in *.
+    destruct B as (B1 & B2 & B3 & B4).
+    assert (E' : same_hs c c' /\ d_hand c' = d_hand c /\ same_frame c c' /\ d_want c' = d_want c /\ d_ccs_done c' = d_ccs_done c)
+      by (unfold c', same_hs, same_frame; hfields; auto 15).
+    destruct E' as (E1 & E2 & E3 & E4 & E5). rewrite E2 in *.
     unfold proc_ok.
     split. { unfold same_hs in *. intuition congruence. }
     split; [exact B2|].
     split.
     { intros A. specialize (B3 A). split; [lia|].
-      destruct B4 as [B4|(dt & F1 & F2 & F3 & F4 & F5 & F6 & F7)].
+      destruct B4 as [[B4 _]|(dt & F1 & F2 & F3 & F4 & F5 & F6 & F7 & F8)].
       - rewrite B4. lia.
       - rewrite F1, app_length. lia. }
-    split; [|exact B5].
-    destruct B4 as [B4|(dt & F1 & F2 & F3 & F4 & F5 & F6 & F7)]; [left; exact B4|].
-    right. exists dt. repeat split; auto.
-    - intros W. rewrite W in F6. cbn in F6. discriminate.
-    - intros W. rewrite W in F7. cbn in F7. destruct (d_ccs_done c); [reflexivity|discriminate].
+    destruct B4 as [[B4 B5]|(dt & F1 & F2 & F3 & F4 & F5 & F6 & F7 & F8)].
+    - left. split; [exact B4|]. destruct B5 as [B5|(N1 & N2 & N3)].
+      + left. unfold same_frame in *. intuition congruence.
+      + right. unfold same_frame in E3. destruct E3 as [E31 E32]. rewrite E32 in N2. auto.
+    - right. exists dt. repeat split; auto.
+      + unfold same_frame in *. intuition congruence.
+      + unfold same_frame in *. intuition congruence.
+      + intros W. rewrite W in F5. cbn in F5. discriminate.
+      + intros W. rewrite W in F6. cbn in F6. destruct (d_ccs_done c); [reflexivity|discriminate].
   Qed.
 
   (* ---------------- readHandshake ---------------- *)
-  Definition keys_ok (p : pending) : Prop :=
-    NoDup (map fst p) /\ Forall (fun k => (k < 65536)%N) (map fst p).
+  Definition keys_ok (p : pending) : Prop := NoDup (map fst p).
 
   Lemma premove_in : forall k k' (p : pending), In k (map fst (premove k' p)) -> In k (map fst p) /\ k <> k'.
   Proof.
@@ -297,56 +328,66 @@ Section DInv.
 
   Lemma premove_keys : forall k (p : pending), keys_ok p -> keys_ok (premove k p).
   Proof.
-    intros k p [ND FA]. induction p as [|[k0 v] t IH]; cbn [premove]; [split; assumption|].
-    cbn [map fst] in ND, FA. inversion ND as [|? ? Hn Ht]; subst. inversion FA as [|? ? Hk Hf]; subst.
-    destruct (IH Ht Hf) as [I1 I2].
-    destruct (N.eqb k k0); [split; assumption|].
-    cbn [map fst]. split.
-    - constructor; [|exact I1]. intros X. apply premove_in in X as [X _]. contradiction.
-    - constructor; assumption.
+    unfold keys_ok. intros k p ND. induction p as [|[k0 v] t IH]; cbn [premove]; [assumption|].
+    cbn [map fst] in ND. inversion ND as [|? ? Hn Ht]; subst.
+    specialize (IH Ht).
+    destruct (N.eqb k k0); [assumption|].
+    cbn [map fst]. constructor; [|exact IH]. intros X. apply premove_in in X as [X _]. contradiction.
   Qed.
 
-  Lemma rh_step_keys : forall (p : pending) f, keys_ok p -> (f_seq f < 65536)%N -> keys_ok (fst (rh_step p f)).
+  Lemma rh_step_keys : forall (p : pending) f, keys_ok p -> keys_ok (fst (rh_step p f)).
   Proof.
-    intros p f K Hs. unfold rh_step.
+    intros p f K. unfold rh_step.
     destruct (Nat.ltb maxHandshake (f_blen f)); [exact K|].
     destruct (Nat.ltb (f_blen f) (f_off f + f_len f)); [exact K|].
     destruct (Nat.ltb (f_len f) (f_blen f) || Nat.ltb 0 (f_off f)); [|exact K].
     destruct (complete _); cbn [fst].
     - apply premove_keys; exact K.
-    - unfold pinsert. destruct (premove_keys (f_seq f) p K) as [I1 I2]. cbn [map fst]. split.
-      + constructor; [|exact I1]. intros X. apply premove_in in X as [_ X]. apply X; reflexivity.
-      + constructor; assumption.
+    - unfold pinsert, keys_ok. pose proof (premove_keys (f_seq f) p K) as I1. cbn [map fst].
+      constructor; [|exact I1]. intros X. apply premove_in in X as [_ X]. apply X; reflexivity.
   Qed.
 
-  Lemma b16_lt : forall a b, (b16 a b < 65536)%N.
+  (* the number of reassembly buffers: removing an existing key makes room for one *)
+  Lemma premove_len : forall k (p : pending), length (premove k p) <= length p.
   Proof.
-    intros a b. unfold b16.
-    pose proof (N.mod_upper_bound a 256 ltac:(discriminate)).
-    pose proof (N.mod_upper_bound b 256 ltac:(discriminate)). lia.
+    induction p as [|[k0 v] t IH]; cbn [premove length]; [lia|].
+    destruct (N.eqb k k0); cbn [length]; lia.
   Qed.
 
-  (* a list of distinct numbers below 2^16 has at most 2^16 elements *)
-  Lemma keys_bound : forall p : pending, keys_ok p -> length p <= 256 * 256.
+  Lemma premove_lt : forall k (p : pending), pmem k p = true -> Datatypes.S (length (premove k p)) <= length p.
   Proof.
-    intros p [ND FA].
-    assert (H : length (map N.to_nat (map fst p)) <= length (seq 0 (256 * 256))).
-    { apply NoDup_incl_length.
-      - apply Injective_map_NoDup; [|exact ND]. intros x y E. apply N2Nat.inj; exact E.
-      - intros x Hx. apply in_map_iff in Hx as (k & <- & Hk). rewrite Forall_forall in FA. specialize (FA k Hk).
-        apply in_seq. lia. }
-    rewrite !map_length, seq_length in H. exact H.
+    unfold pmem. induction p as [|[k0 v] t IH]; cbn [plookup premove length]; intros H; [discriminate|].
+    destruct (N.eqb k k0).
+    - pose proof (premove_len k t). lia.
+    - cbn [length]. specialize (IH H). lia.
+  Qed.
+
+  Lemma rh_step_len : forall (p : pending) f,
+    length p <= maxHandshakeFragments -> refuse_new_buffer p f = false ->
+    length (fst (rh_step p f)) <= maxHandshakeFragments.
+  Proof.
+    intros p f L Rf. unfold rh_step, refuse_new_buffer, is_fragment in *.
+    destruct (Nat.ltb maxHandshake (f_blen f)); [exact L|].
+    destruct (Nat.ltb (f_blen f) (f_off f + f_len f)); [exact L|].
+    destruct (Nat.ltb (f_len f) (f_blen f) || Nat.ltb 0 (f_off f)); [|exact L].
+    cbn [andb] in Rf.
+    destruct (complete _); cbn [fst].
+    - pose proof (premove_len (f_seq f) p). lia.
+    - unfold pinsert. cbn [length].
+      destruct (pmem (f_seq f) p) eqn:Em.
+      + pose proof (premove_lt _ _ Em). lia.
+      + cbn [negb andb] in Rf. apply Nat.leb_gt in Rf.
+        pose proof (premove_len (f_seq f) p). lia.
   Qed.
 
   Definition hinv (c : dconn) : Prop :=
     d_freads c <= 257 /\ (d_alive c = true -> d_freads c <= 256) /\
     Forall (fun kv => buf_ok (snd kv)) (d_pend c) /\ keys_ok (d_pend c) /\
-    length (d_pend c) + (if d_counted c then 1 else 0) <= d_iters c /\
-    d_iters c + 257 <= 257 * d_calls c + d_freads c.
+    length (d_pend c) <= maxHandshakeFragments.
 
   (* what ddrive leaves alone *)
   Definition same_rec (c c1 : dconn) : Prop :=
-    d_raw c1 = d_raw c /\ d_retry c1 = d_retry c /\ d_depth c1 = d_depth c /\ d_appended c1 = d_appended c /\
+    d_raw c1 = d_raw c /\ d_retry c1 = d_retry c /\ d_entry c1 = d_entry c /\ d_frames c1 = d_frames c /\
     d_n c1 = d_n c /\ length (d_hand c1) <= length (d_hand c) /\ (d_alive c1 = true -> d_alive c = true).
 
   Lemma same_rec_refl : forall c : dconn, same_rec c c.
@@ -357,27 +398,19 @@ Section DInv.
     repeat split; try congruence; try lia; auto.
   Qed.
 
-  Ltac hfields :=
-    cbn [fst ConnD.dkill ConnD.set_alive ConnD.set_raw ConnD.set_n ConnD.set_retry ConnD.set_dwell ConnD.set_deferred
-         ConnD.set_epoch ConnD.set_ccs_done ConnD.set_cipher ConnD.set_delivered ConnD.set_appended ConnD.set_hand
-         ConnD.set_pend ConnD.set_counted ConnD.set_freads ConnD.set_iters ConnD.set_calls ConnD.set_want ConnD.set_hs
-         ConnD.set_vers ConnD.new_call ConnD.move_on
-         d_pend d_iters d_calls d_freads d_counted d_want d_hs d_depth d_retry d_alive d_raw d_hand d_appended d_n
-         d_deferred] in *.
-
   Lemma move_on_inv : forall (c : dconn) s w v,
     hinv c -> hinv (move_on S c s w v) /\ same_rec c (move_on S c s w v) /\
     d_alive (move_on S c s w v) = d_alive c /\ d_hand (move_on S c s w v) = d_hand c /\
     d_deferred (move_on S c s w v) = d_deferred c.
   Proof.
-    intros c s w v (H1 & H2 & H3 & H4 & H5 & H6).
+    intros c s w v (H1 & H2 & H3 & H4 & H5).
     unfold move_on. destruct v as [x|]; destruct w; unfold hinv, same_rec; hfields;
-      destruct (d_counted c); repeat split; auto; try lia; try (destruct H4; assumption).
+      repeat split; auto; try lia.
   Qed.
 
   Lemma hinv_kill : forall c : dconn, hinv c -> hinv (dkill S c).
   Proof.
-    intros c (H1 & H2 & H3 & H4 & H5 & H6). unfold hinv. hfields.
+    intros c (H1 & H2 & H3 & H4 & H5). unfold hinv. hfields.
     split; [exact H1|]. split; [intros; discriminate|]. auto.
   Qed.
 
@@ -387,19 +420,18 @@ Section DInv.
     destruct (d_alive c) eqn:Ea; cbn [negb]; [|split; [exact H|apply same_rec_refl]].
     destruct (d_want c) eqn:Ew.
     - (* readHandshake *)
-      set (c1 := if d_counted c then c
-                 else set_iters S (set_counted S (set_freads S c (Datatypes.S (d_freads c))) true) (Datatypes.S (d_iters c))).
-      assert (H1 : (d_freads c1 <= 256 -> hinv c1) /\ hinv (dkill S c1) /\ same_rec c c1 /\ d_counted c1 = true /\
+      set (c1 := if d_counted c then c else set_counted S (set_freads S c (Datatypes.S (d_freads c))) true).
+      assert (H1 : (d_freads c1 <= 256 -> hinv c1) /\ hinv (dkill S c1) /\ same_rec c c1 /\
                    d_alive c1 = true /\ d_hand c1 = d_hand c).
       { unfold c1. destruct (d_counted c) eqn:Ec.
         - split; [intros _; exact H|]. split; [apply hinv_kill; exact H|].
           repeat split; auto using same_rec_refl.
-        - destruct H as (A1 & A2 & A3 & A4 & A5 & A6). rewrite Ec in A5. specialize (A2 Ea).
+        - destruct H as (A1 & A2 & A3 & A4 & A5). specialize (A2 Ea).
           unfold hinv, same_rec. hfields.
-          split; [intros X; repeat split; auto; try lia; try (destruct A4; assumption)|].
-          split; [repeat split; auto; try lia; try (intros; discriminate); try (destruct A4; assumption)|].
+          split; [intros X; repeat split; auto; try lia|].
+          split; [repeat split; auto; try lia; try (intros; discriminate)|].
           repeat split; auto; try lia. }
-      destruct H1 as (Hh' & Hk & Hs & Hc & Ha1 & Hd). clearbody c1.
+      destruct H1 as (Hh' & Hk & Hs & Ha1 & Hd). clearbody c1.
       destruct (maxHandshakeFragments <? d_freads c1) eqn:Efr; [split; [exact Hk|]|].
       { eapply same_rec_trans; [exact Hs|]. unfold same_rec; hfields; repeat split; auto; try (intros; discriminate). }
       apply Nat.ltb_ge in Efr. unfold maxHandshakeFragments in Efr. specialize (Hh' Efr). rename Hh' into Hh.
@@ -415,42 +447,46 @@ Section DInv.
       destruct (length h <? dHeaderLen + flen) eqn:El; [split; assumption|].
       set (f := mkFrag (nth0 h 0) blen (b16 (nth0 h 4) (nth0 h 5)) off flen (firstn flen (skipn dHeaderLen h))).
       set (c2 := set_counted S (set_hand S c1 (skipn (dHeaderLen + flen) h)) false).
-      hfields.
-      destruct Hh as (A1 & A2 & A3 & A4 & A5 & A6). rewrite Hc in A5.
-      change (d_pend c2) with (d_pend c1).
-      destruct (rh_step (d_pend c1) f) as [p o] eqn:Er.
-      destruct (step_bounded _ _ _ _ A3 Er) as [P1 P2].
-      pose proof (rh_step_keys (d_pend c1) f A4 (b16_lt _ _)) as P3. rewrite Er in P3. cbn [fst] in P3.
-      assert (Hc2 : hinv (set_pend S c2 p) /\ same_rec c1 (set_pend S c2 p) /\ d_counted (set_pend S c2 p) = false /\
-                    d_alive (set_pend S c2 p) = true).
-      { unfold c2, hinv, same_rec. hfields. repeat split; auto; try lia; try (destruct P3; assumption).
+      assert (Hc2 : hinv c2 /\ same_rec c1 c2 /\ d_alive c2 = true /\ d_pend c2 = d_pend c1).
+      { destruct Hh as (A1 & A2 & A3 & A4 & A5). unfold c2, hinv, same_rec. hfields. repeat split; auto.
         rewrite skipn_length. fold h. lia. }
-      destruct Hc2 as (B1 & B2 & B3 & B4).
+      destruct Hc2 as (B1 & B2 & B4 & B5).
+      assert (Kc2 : same_rec c (dkill S c2)).
+      { eapply same_rec_trans; [exact Hs|]. eapply same_rec_trans; [exact B2|].
+        unfold same_rec; hfields; repeat split; auto; try (intros; discriminate). }
+      destruct (refuse_new_buffer (d_pend c2) f) eqn:Erf; [split; [apply hinv_kill; exact B1|exact Kc2]|].
+      destruct (rh_step (d_pend c2) f) as [p o] eqn:Er.
+      destruct B1 as (A1 & A2 & A3 & A4 & A5).
+      destruct (step_bounded _ _ _ _ A3 Er) as [P1 _].
+      pose proof (rh_step_keys (d_pend c2) f A4) as P3. rewrite Er in P3. cbn [fst] in P3.
+      pose proof (rh_step_len (d_pend c2) f A5 Erf) as P4. rewrite Er in P4. cbn [fst] in P4.
+      assert (Hc3 : hinv (set_pend S c2 p) /\ same_rec c2 (set_pend S c2 p) /\ d_alive (set_pend S c2 p) = true).
+      { unfold hinv, same_rec. hfields. repeat split; auto. }
+      destruct Hc3 as (C1 & C2 & C3).
+      assert (Kc3 : same_rec c (dkill S (set_pend S c2 p))).
+      { eapply same_rec_trans; [exact Hs|]. eapply same_rec_trans; [exact B2|]. eapply same_rec_trans; [exact C2|].
+        unfold same_rec; hfields; repeat split; auto; try (intros; discriminate). }
       destruct o as [|m|a].
-      + destruct (IH _ B1) as [I1 I2]. split; [exact I1|].
-        eapply same_rec_trans; [exact Hs|]. eapply same_rec_trans; [exact B2|exact I2].
-      + destruct (on_msg (d_hs c2) m) as [[[s w] v]|].
-        * destruct (move_on_inv _ s w v B1) as (M1 & M2 & _).
+      + destruct (IH _ C1) as [I1 I2]. split; [exact I1|].
+        eapply same_rec_trans; [exact Hs|]. eapply same_rec_trans; [exact B2|]. eapply same_rec_trans; [exact C2|exact I2].
+      + change (d_hs (set_pend S c2 p)) with (d_hs c2).
+        destruct (on_msg (d_hs c2) m) as [[[s w] v]|].
+        * destruct (move_on_inv _ s w v C1) as (M1 & M2 & _).
           destruct (IH _ M1) as [I1 I2]. split; [exact I1|].
-          eapply same_rec_trans; [exact Hs|]. eapply same_rec_trans; [exact B2|].
+          eapply same_rec_trans; [exact Hs|]. eapply same_rec_trans; [exact B2|]. eapply same_rec_trans; [exact C2|].
           eapply same_rec_trans; [exact M2|exact I2].
-        * split; [apply hinv_kill; exact B1|].
-          eapply same_rec_trans; [exact Hs|]. eapply same_rec_trans; [exact B2|].
-          unfold same_rec; hfields; repeat split; auto; try (intros; discriminate).
-      + split; [apply hinv_kill; exact B1|].
-        eapply same_rec_trans; [exact Hs|]. eapply same_rec_trans; [exact B2|].
-        unfold same_rec; hfields; repeat split; auto; try (intros; discriminate).
+        * split; [apply hinv_kill; exact C1|exact Kc3].
+      + split; [apply hinv_kill; exact C1|exact Kc3].
     - (* readChangeCipherSpec *)
       destruct (d_deferred c) eqn:Ed; [|split; [exact H|apply same_rec_refl]].
       assert (Hd : hinv (set_deferred S c false) /\ same_rec c (set_deferred S c false)).
-      { destruct H as (A1 & A2 & A3 & A4 & A5 & A6). unfold hinv, same_rec. hfields. repeat split; auto; try (destruct A4; assumption). }
+      { destruct H as (A1 & A2 & A3 & A4 & A5). unfold hinv, same_rec. hfields. repeat split; auto. }
       destruct Hd as [D1 D2].
       destruct (on_ccs (d_hs c)) as [[s w]|].
       2:{ split; [apply hinv_kill; exact D1|]. unfold same_rec; hfields; repeat split; auto; try (intros; discriminate). }
       set (c3 := set_epoch S (set_cipher S (set_deferred S c false) true) ((d_epoch (set_deferred S c false) + 1) mod 65536)%N).
       assert (H3 : hinv c3 /\ same_rec c c3).
-      { destruct H as (A1 & A2 & A3 & A4 & A5 & A6). unfold c3, hinv, same_rec. hfields.
-        repeat split; auto; try (destruct A4; assumption). }
+      { destruct H as (A1 & A2 & A3 & A4 & A5). unfold c3, hinv, same_rec. hfields. repeat split; auto. }
       destruct H3 as [E1 E2].
       destruct (move_on_inv c3 s w None E1) as (M1 & M2 & _).
       destruct (IH _ M1) as [I1 I2]. split; [exact I1|].
@@ -458,63 +494,152 @@ Section DInv.
     - split; [exact H|apply same_rec_refl].
   Qed.
 
+  (* readHandshake stops reading messages only where it must wait for more input: with fewer
+     bytes than a fragment header, or fewer than the fragment its header announces *)
+  Lemma ddrive_stops : forall fuel (c : dconn),
+    length (d_hand c) + (if d_deferred c then 1 else 0) < fuel ->
+    d_alive (ddrive fuel c) = true -> d_want (ddrive fuel c) = WMsg -> length (d_hand (ddrive fuel c)) <= handWaitD.
+  Proof.
+    unfold handWaitD, dHeaderLen, maxHandshakeT.
+    induction fuel as [|k IH]; intros c Hf; [lia|]. cbn [ConnD.ddrive].
+    destruct (d_alive c) eqn:Ea; cbn [negb]; [|intros X; rewrite Ea in X; discriminate].
+    destruct (d_want c) eqn:Ew.
+    - set (c1 := if d_counted c then c else set_counted S (set_freads S c (Datatypes.S (d_freads c))) true).
+      assert (H1 : d_hand c1 = d_hand c /\ d_deferred c1 = d_deferred c).
+      { unfold c1. destruct (d_counted c); hfields; auto. }
+      destruct H1 as [Hd Hdf]. clearbody c1.
+      destruct (maxHandshakeFragments <? d_freads c1); [hfields; intros; discriminate|].
+      destruct (length (d_hand c1) <? dHeaderLen) eqn:E12.
+      { intros _ _. apply Nat.ltb_lt in E12. unfold dHeaderLen in E12. lia. }
+      set (h := d_hand c1) in *.
+      set (blen := b24n (nth0 h 1) (nth0 h 2) (nth0 h 3)).
+      set (flen := b24n (nth0 h 9) (nth0 h 10) (nth0 h 11)).
+      set (off := b24n (nth0 h 6) (nth0 h 7) (nth0 h 8)).
+      destruct (maxHandshakeT <? blen) eqn:Eb; [hfields; intros; discriminate|].
+      destruct (blen <? off + flen) eqn:Eo; [hfields; intros; discriminate|].
+      apply Nat.ltb_ge in Eb, Eo. unfold maxHandshakeT in Eb.
+      destruct (length h <? dHeaderLen + flen) eqn:El.
+      { intros _ _. apply Nat.ltb_lt in El. unfold dHeaderLen in El. fold h. lia. }
+      apply Nat.ltb_ge in El. unfold dHeaderLen in El.
+      set (f := mkFrag (nth0 h 0) blen (b16 (nth0 h 4) (nth0 h 5)) off flen (firstn flen (skipn dHeaderLen h))).
+      set (c2 := set_counted S (set_hand S c1 (skipn (dHeaderLen + flen) h)) false).
+      assert (L2 : length (d_hand c2) + 12 <= length h /\ d_deferred c2 = d_deferred c).
+      { unfold c2. hfields. rewrite skipn_length. unfold dHeaderLen. split; [lia|exact Hdf]. }
+      destruct L2 as [L2 D2]. clearbody c2.
+      destruct (refuse_new_buffer (d_pend c2) f); [hfields; intros; discriminate|].
+      destruct (rh_step (d_pend c2) f) as [p o].
+      destruct o as [|m|a]; [| |hfields; intros; discriminate].
+      + apply IH. hfields. rewrite D2. rewrite <- Hd in Hf. destruct (d_deferred c); lia.
+      + change (d_hs (set_pend S c2 p)) with (d_hs c2).
+        destruct (on_msg (d_hs c2) m) as [[[s w] v]|]; [|hfields; intros; discriminate].
+        apply IH.
+        assert (X : d_hand (move_on S (set_pend S c2 p) s w v) = d_hand c2 /\ d_deferred (move_on S (set_pend S c2 p) s w v) = d_deferred c2).
+        { unfold move_on. destruct v; destruct w; hfields; auto. }
+        destruct X as [X1 X2]. rewrite X1, X2, D2. rewrite <- Hd in Hf. destruct (d_deferred c); lia.
+    - destruct (d_deferred c) eqn:Ed; [|intros _ X; congruence].
+      destruct (on_ccs (d_hs c)) as [[s w]|]; [|hfields; intros; discriminate].
+      apply IH.
+      match goal with |- context [move_on S ?x s w None] => set (c3 := x) end.
+      assert (X : d_hand (move_on S c3 s w None) = d_hand c /\ d_deferred (move_on S c3 s w None) = false).
+      { unfold move_on, c3. destruct w; hfields; auto. }
+      destruct X as [X1 X2]. rewrite X1, X2. lia.
+    - intros _ X; congruence.
+  Qed.
+
   (* ---------------- the whole machine ---------------- *)
-  Definition dinv (c : dconn) : Prop := hinv c /\ retry_ok c.
+  (* handBuf against handLenAtEntry of the running frame of readRecordOrCCS: it never shrinks inside a
+     frame; once it grew, what it gained plus what is left of the datagram stays within one datagram's
+     payload (the frame reads no other datagram); while readHandshake reads a message the frame
+     started with at most what readHandshake leaves when it waits, plus one datagram's payload per
+     frame of the retry recursion beneath it *)
+  Definition jinv (c : dconn) : Prop :=
+    d_entry c <= length (d_hand c) /\
+    length (d_hand c) <= d_entry c + maxCiphertext /\
+    (d_alive c = true ->
+       length (d_raw c) <= dgramBuf /\
+       (length (d_hand c) = d_entry c \/ length (d_hand c) + length (d_raw c) <= d_entry c + maxCiphertext) /\
+       (d_want c = WMsg -> d_entry c <= handWaitD + d_frames c * maxCiphertext)).
+
+  Definition dinv (c : dconn) : Prop := hinv c /\ retry_ok c /\ jinv c.
 
   Lemma hinv_same_hs : forall c c1 : dconn, d_alive c = true -> same_hs c c1 -> hinv c -> hinv c1.
   Proof.
-    intros c c1 Ha (S1 & S2 & S3 & S4 & S5 & S6 & S7 & S8) (H1 & H2 & H3 & H4 & H5 & H6).
-    unfold hinv. rewrite S1, S2, S3, S4, S5. specialize (H2 Ha). repeat split; auto; try lia; destruct H4; assumption.
+    intros c c1 Ha (S1 & S2 & S3 & S4 & S5 & S6) (H1 & H2 & H3 & H4 & H5).
+    unfold hinv. rewrite S1, S3. specialize (H2 Ha). repeat split; auto; lia.
   Qed.
 
-  Lemma dafter_inv : forall c : dconn, dinv c -> dinv (dafter c) /\ d_raw (dafter c) = d_raw c /\ d_depth (dafter c) = d_depth c /\
-    (d_alive (dafter c) = true -> d_appended (dafter c) = false).
+  Lemma dafter_inv : forall c : dconn, dinv c ->
+    dinv (dafter c) /\ d_raw (dafter c) = d_raw c /\ (d_alive (dafter c) = true -> grown S (dafter c) = false).
   Proof.
-    intros c [H R]. unfold ConnD.dafter.
+    intros c (H & R & J). unfold ConnD.dafter.
     destruct (d_alive c) eqn:Ea; cbn [negb].
-    2:{ split; [split; assumption|]. split; [reflexivity|]. split; [reflexivity|]. intros X. rewrite Ea in X. discriminate. }
-    set (c0 := set_appended S c false).
-    assert (H0 : hinv c0 /\ retry_ok c0 /\ d_raw c0 = d_raw c /\ d_depth c0 = d_depth c /\ d_appended c0 = false).
-    { destruct H as (A1 & A2 & A3 & A4 & A5 & A6). destruct R as [R1 R2]. unfold c0, hinv, retry_ok. hfields.
-      repeat split; auto; destruct A4; assumption. }
-    destruct H0 as (B1 & B2 & B3 & B4 & B5). clearbody c0.
-    assert (G : forall c2 : dconn, hinv c2 -> same_rec c0 c2 ->
-                dinv c2 /\ d_raw c2 = d_raw c /\ d_depth c2 = d_depth c /\ (d_alive c2 = true -> d_appended c2 = false)).
-    { intros c2 X (Y1 & Y2 & Y3 & Y4 & Y5 & Y6 & Y7). unfold dinv, retry_ok.
-      destruct B2 as [R1 R2].
-      split. { split; [exact X|]. split; [rewrite Y2; exact R1|]. intros A. rewrite Y2. apply R2. apply Y7. exact A. }
-      split; [congruence|]. split; [congruence|]. intros _. congruence. }
-    destruct (d_want c0).
-    - destruct (ddrive_inv (dfuel S c0) c0 B1) as [I1 I2]. apply G; assumption.
-    - destruct (d_ccs_done c0); [|apply G; auto using same_rec_refl].
+    2:{ split; [exact (conj H (conj R J))|]. split; [reflexivity|]. intros X. rewrite Ea in X. discriminate. }
+    set (c0 := set_frames S c 0).
+    assert (H0 : hinv c0 /\ d_alive c0 = true /\ d_raw c0 = d_raw c /\ d_retry c0 = d_retry c /\ d_frames c0 = 0).
+    { destruct H as (A1 & A2 & A3 & A4 & A5). unfold c0, hinv. hfields. repeat split; auto. }
+    destruct H0 as (B1 & B2 & B3 & B4 & B5).
+    destruct J as (J1 & J3 & J). destruct (J Ea) as (J2 & _ & _). clear J.
+    assert (G : forall X : dconn, hinv X -> same_rec c0 X ->
+                (d_alive X = true -> d_want X = WMsg -> length (d_hand X) <= handWaitD) ->
+                dinv (enter_call S X) /\ d_raw (enter_call S X) = d_raw c /\
+                (d_alive (enter_call S X) = true -> grown S (enter_call S X) = false)).
+    { intros X HX (Y1 & Y2 & Y3 & Y4 & Y5 & Y6 & Y7) St. unfold dinv, retry_ok, jinv, grown.
+      destruct R as [R1 R2]. destruct HX as (A1 & A2 & A3 & A4 & A5). unfold hinv. hfields.
+      split.
+      { split; [repeat split; auto|]. split; [split; [lia|intros; rewrite Y2, B4; auto]|].
+        split; [lia|]. split; [lia|]. intros A. split; [rewrite Y1, B3; exact J2|].
+        split; [left; reflexivity|]. intros W. rewrite Y4, B5. specialize (St A W). lia. }
+      split; [congruence|]. intros _. apply Nat.ltb_irrefl. }
+    destruct (d_want c0) eqn:Ew.
+    - destruct (ddrive_inv (dfuel S c0) c0 B1) as [I1 I2]. apply G; [exact I1|exact I2|].
+      apply ddrive_stops. unfold dfuel. destruct (d_deferred c0); lia.
+    - destruct (d_ccs_done c0) eqn:Ecd.
+      2:{ apply G; [exact B1|apply same_rec_refl|]. intros _ W. congruence. }
       destruct (on_ccs (d_hs c0)) as [[s w]|].
       + assert (H1 : hinv (set_ccs_done S c0 false) /\ same_rec c0 (set_ccs_done S c0 false)).
-        { destruct B1 as (A1 & A2 & A3 & A4 & A5 & A6). unfold hinv, same_rec. hfields.
-          repeat split; auto; destruct A4; assumption. }
+        { destruct B1 as (A1 & A2 & A3 & A4 & A5). unfold hinv, same_rec. hfields. repeat split; auto. }
         destruct H1 as [E1 E2].
         destruct (move_on_inv _ s w None E1) as (M1 & M2 & _).
         set (c3 := move_on S (set_ccs_done S c0 false) s w None) in *.
         destruct (ddrive_inv (dfuel S c3) c3 M1) as [I1 I2].
-        apply G; [exact I1|]. eapply same_rec_trans; [exact E2|]. eapply same_rec_trans; [exact M2|exact I2].
-      + apply G; [apply hinv_kill; exact B1|]. unfold same_rec; hfields; repeat split; auto; try (intros; discriminate).
-    - apply G; auto using same_rec_refl.
+        apply G; [exact I1| |].
+        * eapply same_rec_trans; [exact E2|]. eapply same_rec_trans; [exact M2|exact I2].
+        * apply ddrive_stops. unfold dfuel. destruct (d_deferred c3); lia.
+      + apply G; [apply hinv_kill; exact B1| |].
+        * unfold same_rec; hfields; repeat split; auto; try (intros; discriminate).
+        * hfields. intros; discriminate.
+    - apply G; [exact B1|apply same_rec_refl|]. intros _ W. congruence.
   Qed.
 
-  Lemma load_inv : forall (c : dconn) d, dinv c -> dinv (load S c d).
+  Lemma load_inv : forall (c : dconn) d, dinv c -> d_alive c = true -> grown S c = false -> dinv (load S c d).
   Proof.
-    intros c d [(A1 & A2 & A3 & A4 & A5 & A6) [R1 R2]]. unfold load. destruct d as [|b].
-    - unfold dinv, hinv, retry_ok. hfields. cbn [ConnD.set_depth d_freads d_alive d_pend d_counted d_iters d_calls d_retry].
-      repeat split; auto; destruct A4; assumption.
-    - destruct (length (firstn dgramBuf b) <? dRecordHeaderLen);
-        unfold dinv, hinv, retry_ok; hfields; cbn [ConnD.set_depth d_freads d_alive d_pend d_counted d_iters d_calls d_retry];
-        repeat split; auto; try (intros; discriminate); destruct A4; assumption.
+    intros c d ((A1 & A2 & A3 & A4 & A5) & [R1 R2] & (J1 & J3 & J)) Ha Hg.
+    destruct (J Ha) as (J2 & J3b & J4). unfold grown in Hg. apply Nat.ltb_ge in Hg.
+    unfold load. destruct d as [|b]; [repeat split; auto|].
+    pose proof (firstn_le_length dgramBuf b) as Lb.
+    destruct (length (firstn dgramBuf b) <? dRecordHeaderLen); [destruct (want_eqb (d_want c) WApp)|];
+      unfold dinv, hinv, retry_ok, jinv; hfields; repeat split; auto; try (intros; discriminate);
+      try (cbn [length]; lia); try (left; lia).
   Qed.
 
   Lemma process_inv : forall c : dconn, dinv c -> d_alive c = true -> dRecordHeaderLen <= length (d_raw c) ->
     dinv (fst (process c)).
   Proof.
-    intros c [H R] Ha Hr. destruct (process_ok c Ha R Hr) as (P1 & P2 & _).
-    split; [apply (hinv_same_hs c); assumption|exact P2].
+    intros c (H & R & (J1 & J3 & J)) Ha Hr. destruct (J Ha) as (J2 & J3b & J4).
+    destruct (process_ok c Ha R Hr) as (P1 & P2 & P3 & P4).
+    set (c1 := fst (process c)) in *.
+    split; [apply (hinv_same_hs c); assumption|]. split; [exact P2|].
+    assert (Ew : d_want c1 = d_want c) by (destruct P1 as (_ & _ & _ & _ & W & _); exact W).
+    unfold jinv. unfold dgramBuf, maxCiphertext, handWaitD, dRecordHeaderLen in *.
+    destruct P4 as [[Q1 [[Q2 Q3]|(Q2 & Q3 & Q4)]]|(dt & Q1 & Q2 & Q3 & [Q4 Q5] & Q6 & Q7 & Q8)].
+    - rewrite Q1, Q2, Q3, Ew. split; [exact J1|]. split; [exact J3|]. intros A. destruct (P3 A) as [T1 T2].
+      split; [lia|]. split; [|exact J4]. destruct J3b as [E|E]; [left; exact E|right; lia].
+    - rewrite Q1, Q2, Q3, Q4, Ew. split; [lia|]. split; [lia|]. intros A.
+      split; [cbn [length]; lia|]. split; [left; reflexivity|]. intros W. specialize (J4 W). lia.
+    - rewrite Q4, Q5, Ew. specialize (P3 Q8). destruct P3 as [T1 T2].
+      rewrite Q1 in *. rewrite app_length in *. unfold maxPlaintext in Q3.
+      split; [lia|]. split; [destruct J3b; lia|]. intros _.
+      split; [lia|]. split; [right; destruct J3b; lia|exact J4].
   Qed.
 
   Theorem drun_inv : forall fuel (c : dconn) dgs, dinv c -> dinv (fst (fst (drun fuel c dgs))).
@@ -522,9 +647,9 @@ Section DInv.
     induction fuel as [|k IH]; intros c dgs H; cbn [ConnD.drun]; [exact H|].
     destruct (d_alive c) eqn:Ea; cbn [negb]; [|exact H].
     destruct (length (d_raw c) <? dRecordHeaderLen) eqn:El.
-    - destruct (fix11 && d_appended c).
+    - destruct (grown S c) eqn:Eg.
       + apply IH. apply dafter_inv. exact H.
-      + destruct dgs as [|d t]; [exact H|]. apply IH. apply load_inv. exact H.
+      + destruct dgs as [|d t]; [exact H|]. apply IH. apply load_inv; assumption.
     - apply Nat.ltb_ge in El. pose proof (process_inv c H Ea El) as P.
       destruct (process c) as [c1 [|]]; cbn [fst] in P.
       + apply IH. exact P.
@@ -533,8 +658,8 @@ Section DInv.
 
   Lemma dinit_inv : forall s w, dinv (dinit s w).
   Proof.
-    intros s w. unfold dinv, hinv, retry_ok, keys_ok, dinit.
-    cbn [d_freads d_alive d_pend d_counted d_iters d_calls d_retry map length].
+    intros s w. unfold dinv, hinv, retry_ok, jinv, keys_ok, dinit, handWaitD, dgramBuf.
+    cbn [d_freads d_alive d_pend d_counted d_calls d_retry d_entry d_hand d_raw d_frames map length].
     repeat split; auto; try lia; try constructor.
   Qed.
 
@@ -548,41 +673,52 @@ Section DInv.
     { intros c2 l A K. destruct k as [|k']; [lia|]. cbn [ConnD.drun]. rewrite A. cbn. discriminate. }
     unfold dmeasure in Hm.
     destruct (length (d_raw c) <? dRecordHeaderLen) eqn:El.
-    - destruct (fix11 && d_appended c) eqn:Ef.
-      + apply andb_true_iff in Ef as [_ Ef]. rewrite Ef in Hm.
-        destruct (dafter_inv c H) as (D1 & D2 & D3 & D4).
+    - destruct (grown S c) eqn:Ef.
+      + destruct (dafter_inv c H) as (D1 & D2 & D4).
         destruct (d_alive (dafter c)) eqn:Ea2; [|apply Dead; [exact Ea2|lia]].
         apply IH; [exact D1|]. unfold dmeasure. rewrite D2, (D4 eq_refl). lia.
       + destruct dgs as [|d t]; [cbn; discriminate|].
         unfold list_sum in *. cbn [map fold_right] in Hm.
-        pose proof (load_inv c d H) as L.
+        pose proof (load_inv c d H Ea Ef) as L.
         destruct (d_alive (load S c d)) eqn:Ea2.
         2:{ apply Dead; [exact Ea2|]. unfold dg_size, dRecordHeaderLen in Hm. destruct d; lia. }
         apply IH; [exact L|]. unfold dmeasure, list_sum.
-        unfold load in *. destruct d as [|b].
-        * cbn [ConnD.set_depth d_raw d_appended]. cbn [dg_size] in Hm. unfold dRecordHeaderLen in Hm. lia.
-        * destruct (length (firstn dgramBuf b) <? dRecordHeaderLen); hfields; cbn [ConnD.set_depth ConnD.set_raw ConnD.set_alive ConnD.dkill d_raw d_appended d_alive] in *; [discriminate|].
-          cbn [dg_size] in Hm. rewrite firstn_length. unfold dRecordHeaderLen in Hm.
-          destruct (d_appended c); lia.
-    - apply Nat.ltb_ge in El. destruct H as [Hh Hr].
-      pose proof (process_ok c Ea Hr El) as (P1 & P2 & P3 & P4 & P5).
-      pose proof (process_inv c (conj Hh Hr) Ea El) as PI.
+        assert (Gl : grown S (load S c d) = false /\ length (d_raw (load S c d)) + dRecordHeaderLen <= length (d_raw c) + dg_size d).
+        { unfold load, grown in *. destruct d as [|b]; cbn [dg_size]; [split; [exact Ef|lia]|].
+          destruct (length (firstn dgramBuf b) <? dRecordHeaderLen); [destruct (want_eqb (d_want c) WApp)|]; hfields;
+            (split; [exact Ef|]); try (cbn [length]; lia); rewrite firstn_length; lia. }
+        destruct Gl as [G1 G2]. rewrite G1. unfold dRecordHeaderLen in *. lia.
+    - apply Nat.ltb_ge in El. destruct H as (Hh & Hr & Hj).
+      pose proof (process_ok c Ea Hr El) as (P1 & P2 & P3 & P4).
+      pose proof (process_inv c (conj Hh (conj Hr Hj)) Ea El) as PI.
       destruct (process c) as [c1 a]; cbn [fst] in *.
-      assert (K26 : 26 <= k) by (unfold dRecordHeaderLen in El; lia).
+      assert (K26 : 26 <= k) by (unfold dRecordHeaderLen in El; destruct (grown S c); lia).
       destruct a.
       + destruct (d_alive c1) eqn:Ea1; [|apply Dead; [exact Ea1|lia]].
         apply IH; [exact PI|]. destruct (P3 eq_refl) as [Q1 Q2]. unfold dmeasure. unfold dRecordHeaderLen in Q1.
-        destruct (d_appended c1), (d_appended c); lia.
-      + destruct (dafter_inv c1 PI) as (D1 & D2 & D3 & D4).
+        destruct (grown S c1), (grown S c); lia.
+      + destruct (dafter_inv c1 PI) as (D1 & D2 & D4).
         destruct (d_alive (dafter c1)) eqn:Ea2; [|apply Dead; [exact Ea2|lia]].
         assert (Ea1 : d_alive c1 = true).
         { destruct (d_alive c1) eqn:E1; [reflexivity|]. unfold ConnD.dafter in Ea2. rewrite E1 in Ea2. cbn [negb] in Ea2. congruence. }
         apply IH; [exact D1|]. destruct (P3 Ea1) as [Q1 Q2]. unfold dmeasure. rewrite D2, (D4 eq_refl).
-        unfold dRecordHeaderLen in Q1. destruct (d_appended c); lia.
+        unfold dRecordHeaderLen in Q1. destruct (grown S c); lia.
   Qed.
+
+  (* ---------------- readDatagram: datagrams from other addresses ---------------- *)
+  (* each is taken by one iteration of the loop and leaves the connection exactly as it was *)
+  Theorem drun_foreign : forall n k (c : dconn) rest,
+    d_alive c = true -> length (d_raw c) < dRecordHeaderLen -> grown S c = false ->
+    drun (n + k) c (repeat Foreign n ++ rest) = drun k c rest.
+  Proof.
+    induction n as [|n IH]; intros k c rest Ha Hr Hg; [reflexivity|].
+    cbn [repeat app Nat.add ConnD.drun]. rewrite Ha. cbn [negb].
+    apply Nat.ltb_lt in Hr. rewrite Hr, Hg. cbn [load]. apply Nat.ltb_lt in Hr. apply IH; assumption.
+  Qed.
+
 End DInv.
 
-(* ================= what does not hold on the code as built ================= *)
+(* ================= concrete inputs ================= *)
 (* concrete environment: null protection, every record fresh, no dwell period, and a handshake
    layer that accepts every message and reads another one (the server's cookie exchange answers
    every cookie-less ClientHello with a HelloVerifyRequest and reads the next ClientHello) *)
@@ -592,100 +728,152 @@ Definition d_no_ccs (_ : unit) : option (unit * want) := None.
 Definition always (_ : nat) : bool := true.
 Definition never (_ : nat) : bool := false.
 
-Definition drun0 := drun unit d_loop_msg d_no_ccs d_id always never false false.
+Definition drun0 := drun unit d_loop_msg d_no_ccs d_id always never false.
+Definition drun0_K12 := drun_K12 unit d_loop_msg d_no_ccs d_id always never false.
+Definition drun0_K14 := drun_K14 unit d_loop_msg d_no_ccs d_id always never false.
+Definition process0 := process unit d_no_ccs d_id always never false.
 
 (* a record header: type, version 0x0101, epoch, sequence number 0, length *)
 Definition rec_hdr (typ epoch : N) (n : nat) : bytes :=
   [typ; 1; 1; 0; epoch; 0; 0; 0; 0; 0; 0; N.of_nat (n / 256); N.of_nat (n mod 256)]%N.
 
-(* ---------- K13: readDatagram recurses once per datagram of a foreign address ---------- *)
-Lemma drun0_foreign : forall k (c : dconn unit) rest,
-  d_alive c = true -> length (d_raw c) < dRecordHeaderLen ->
-  drun0 (S k) c (Foreign :: rest) = drun0 k (set_depth unit c (S (d_depth c))) rest.
-Proof.
-  intros k c rest Ha Hr. unfold drun0. cbn [drun]. rewrite Ha. cbn [negb].
-  apply Nat.ltb_lt in Hr. rewrite Hr. reflexivity.
-Qed.
+(* a connection waiting for its first handshake message, with these buffers and counters *)
+Definition st0 (raw hand : bytes) (retry n entry frames : nat) : dconn unit :=
+  mkD unit true WMsg tt raw hand [] retry None false 0%N false false false 0 0 false n entry frames 1.
 
-Lemma K10_depth_grows : forall k (c : dconn unit),
-  d_alive c = true -> length (d_raw c) < dRecordHeaderLen ->
-  d_depth (fst (fst (drun0 (S k) c (repeat Foreign k)))) = d_depth c + k.
-Proof.
-  induction k as [|k IH]; intros c Ha Hr.
-  - unfold drun0. cbn [repeat drun]. rewrite Ha. cbn [negb].
-    apply Nat.ltb_lt in Hr. rewrite Hr. cbn. lia.
-  - cbn [repeat]. rewrite drun0_foreign by assumption.
-    rewrite IH; cbn [set_depth d_depth d_alive d_raw]; auto. lia.
-Qed.
-
-Theorem K10_depth_unbounded : forall B, exists dgs,
-  B < d_depth (fst (fst (drun0 (S (length dgs)) (dinit tt WMsg) dgs))).
-Proof.
-  intros B. exists (repeat Foreign (S B)). rewrite repeat_length.
-  rewrite K10_depth_grows; cbn; auto; try lia. unfold dRecordHeaderLen. lia.
-Qed.
-
-(* ---------- K14: handBuf grows without bound inside one readRecordOrCCS call ---------- *)
-(* one datagram: a handshake record of the current epoch carrying one byte, followed by an empty
-   handshake record of epoch 1; the first is appended and, the next record being a handshake
-   record, the loop goes on; the second is dropped by the epoch filter and the loop reads the
-   next datagram without returning to readHandshake *)
-Definition k11_dgram : dgram := FromPeer (rec_hdr 22 0 1 ++ [7%N] ++ rec_hdr 22 1 0).
-
-Definition k11_bytes : bytes := rec_hdr 22 0 1 ++ [7%N] ++ rec_hdr 22 1 0.
-
-Definition k11_state (raw : bytes) (hs : unit) (hand : bytes) (pend : pending) (retry n depth iters calls freads : nat)
-           (deferred ccsd dwell counted appended : bool) (delivered : nat) : dconn unit :=
-  mkD unit true WMsg hs raw hand pend retry None false 0%N deferred ccsd dwell delivered freads counted n depth appended iters calls.
+(* ---------- K15: a warning alert re-enters readRecordOrCCS from inside its loop ---------- *)
+(* one datagram: a handshake record of the current epoch carrying one byte; an empty handshake
+   record of epoch 1; a warning alert.  The first is appended and, the next record being a
+   handshake record, the loop goes on; the second is dropped by the epoch filter; the alert makes
+   retryReadRecord call readRecordOrCCS again: the new frame takes the grown handBuf as its
+   handLenAtEntry and reads the next datagram, readHandshake is never reached, and retryCount was
+   reset by the handshake record *)
+Definition k15_bytes : bytes := rec_hdr 22 0 1 ++ [7%N] ++ rec_hdr 22 1 0 ++ rec_hdr 21 0 2 ++ [1; 90]%N.
+Definition k15_dgram : dgram := FromPeer k15_bytes.
 
 Lemma drun0_load : forall k (c : dconn unit) d rest,
-  d_alive c = true -> length (d_raw c) <? dRecordHeaderLen = true ->
+  d_alive c = true -> length (d_raw c) <? dRecordHeaderLen = true -> grown unit c = false ->
   drun0 (S k) c (d :: rest) = drun0 k (load unit c d) rest.
-Proof. intros k c d rest Ha Hr. unfold drun0. cbn [drun]. rewrite Ha, Hr. reflexivity. Qed.
+Proof. intros k c d rest Ha Hr Hg. unfold drun0. cbn [drun]. rewrite Ha, Hr, Hg. reflexivity. Qed.
 
 Lemma drun0_cont : forall k (c c1 : dconn unit) dgs,
   d_alive c = true -> length (d_raw c) <? dRecordHeaderLen = false ->
-  process unit d_no_ccs d_id always never false c = (c1, Continue) ->
+  process0 c = (c1, Continue) ->
   drun0 (S k) c dgs = drun0 k c1 dgs.
-Proof. intros k c c1 dgs Ha Hr Hp. unfold drun0. cbn [drun]. rewrite Ha, Hr, Hp. reflexivity. Qed.
+Proof. intros k c c1 dgs Ha Hr Hp. unfold drun0, process0 in *. cbn [drun]. rewrite Ha, Hr, Hp. reflexivity. Qed.
 
-Lemma K11_step : forall k rest hs hand pend retry n depth iters calls freads deferred ccsd dwell counted appended delivered,
-  drun0 (3 + k) (k11_state [] hs hand pend retry n depth iters calls freads deferred ccsd dwell counted appended delivered) (k11_dgram :: rest) =
-  drun0 k (k11_state [] hs (hand ++ [7%N]) pend 0 (2 + n) 0 iters calls freads deferred ccsd dwell counted true delivered) rest.
+Lemma K15_step : forall k rest hand retry n frames,
+  drun0 (4 + k) (st0 [] hand retry n (length hand) frames) (k15_dgram :: rest) =
+  drun0 k (st0 [] (hand ++ [7%N]) 1 (3 + n) (length (hand ++ [7%N])) (S frames)) rest.
 Proof.
-  intros. change (3 + k) with (S (S (S k))).
-  rewrite drun0_load by reflexivity.
-  rewrite (drun0_cont (S k) _ (k11_state (rec_hdr 22 1 0) hs (hand ++ [7%N]) pend 0 (1 + n) 0 iters calls freads deferred ccsd dwell counted true delivered));
+  intros. change (4 + k) with (S (S (S (S k)))).
+  rewrite drun0_load; [|reflexivity|reflexivity|apply Nat.ltb_irrefl].
+  rewrite (drun0_cont (S (S k)) _ (st0 (rec_hdr 22 1 0 ++ rec_hdr 21 0 2 ++ [1; 90]%N) (hand ++ [7%N]) 0 (1 + n) (length hand) frames));
     [|reflexivity|reflexivity|vm_compute; reflexivity].
-  rewrite (drun0_cont k _ (k11_state [] hs (hand ++ [7%N]) pend 0 (2 + n) 0 iters calls freads deferred ccsd dwell counted true delivered));
+  rewrite (drun0_cont (S k) _ (st0 (rec_hdr 21 0 2 ++ [1; 90]%N) (hand ++ [7%N]) 0 (2 + n) (length hand) frames));
+    [|reflexivity|reflexivity|vm_compute; reflexivity].
+  rewrite (drun0_cont k _ (st0 [] (hand ++ [7%N]) 1 (3 + n) (length (hand ++ [7%N])) (S frames)));
     [reflexivity|reflexivity|reflexivity|vm_compute; reflexivity].
 Qed.
 
-Lemma K11_grows : forall k hs hand pend retry n depth iters calls freads deferred ccsd dwell counted appended delivered,
-  exists retry' n' depth' appended',
-  drun0 (3 * k + 1) (k11_state [] hs hand pend retry n depth iters calls freads deferred ccsd dwell counted appended delivered) (repeat k11_dgram k) =
-  (k11_state [] hs (hand ++ repeat 7%N k) pend retry' n' depth' iters calls freads deferred ccsd dwell counted appended' delivered, [], DBlocked).
+Lemma K15_grows : forall k hand retry n frames,
+  exists retry' n',
+  drun0 (4 * k + 1) (st0 [] hand retry n (length hand) frames) (repeat k15_dgram k) =
+  (st0 [] (hand ++ repeat 7%N k) retry' n' (length (hand ++ repeat 7%N k)) (frames + k), [], DBlocked).
 Proof.
   induction k as [|k IH]; intros.
-  - exists retry, n, depth, appended. cbn [repeat]. rewrite app_nil_r. reflexivity.
-  - replace (3 * S k + 1) with (3 + (3 * k + 1)) by lia. cbn [repeat]. rewrite K11_step.
-    destruct (IH hs (hand ++ [7%N]) pend 0 (2 + n) 0 iters calls freads deferred ccsd dwell counted true delivered)
-      as (r' & n' & d' & a' & E).
-    exists r', n', d', a'. rewrite E. rewrite <- app_assoc. reflexivity.
+  - exists retry, n. cbn [repeat]. rewrite app_nil_r, Nat.add_0_r. unfold drun0. cbn [Nat.mul Nat.add drun st0 d_alive d_raw negb length Nat.ltb Nat.leb dRecordHeaderLen].
+    unfold grown. cbn [d_entry d_hand]. rewrite Nat.ltb_irrefl. reflexivity.
+  - replace (4 * S k + 1) with (4 + (4 * k + 1)) by lia. cbn [repeat]. rewrite K15_step.
+    destruct (IH (hand ++ [7%N]) 1 (3 + n) (S frames)) as (r' & n' & E).
+    exists r', n'. rewrite E. rewrite <- app_assoc. cbn [app]. replace (S frames + k) with (frames + S k) by lia. reflexivity.
 Qed.
 
-Theorem K11_handbuf_unbounded : forall B, exists dgs fuel,
+(* handBuf and the number of readRecordOrCCS frames exceed every bound, before the first
+   handshake message was looked at *)
+Theorem K15_unbounded : forall B, exists dgs fuel,
   let c := fst (fst (drun0 fuel (dinit tt WMsg) dgs)) in
-  d_alive c = true /\ B < length (d_hand c).
+  d_alive c = true /\ d_want c = WMsg /\ d_calls c = 1 /\ B < length (d_hand c) /\ B < d_frames c.
+Proof.
+  intros B. exists (repeat k15_dgram (S B)), (4 * S B + 1).
+  destruct (K15_grows (S B) [] 0 0 0) as (r & n & E).
+  change (dinit tt WMsg) with (st0 [] [] 0 0 (length (@nil N)) 0).
+  cbn zeta. rewrite E. cbn [fst st0 d_alive d_hand d_want d_calls d_frames].
+  repeat split; try reflexivity.
+  - rewrite app_length, repeat_length. cbn. lia.
+  - lia.
+Qed.
+
+(* ---------- K14 (before 6b259b8): handBuf grows without bound inside one readRecordOrCCS call ---------- *)
+(* one datagram: a handshake record of the current epoch carrying one byte, followed by an empty
+   handshake record of epoch 1; the first is appended and, the next record being a handshake
+   record, the loop goes on; the second is dropped by the epoch filter and the loop read the
+   next datagram without returning to readHandshake *)
+Definition k11_bytes : bytes := rec_hdr 22 0 1 ++ [7%N] ++ rec_hdr 22 1 0.
+Definition k11_dgram : dgram := FromPeer k11_bytes.
+
+Lemma drun14_load : forall k (c : dconn unit) d rest,
+  d_alive c = true -> length (d_raw c) <? dRecordHeaderLen = true ->
+  drun0_K14 (S k) c (d :: rest) = drun0_K14 k (load unit c d) rest.
+Proof. intros k c d rest Ha Hr. unfold drun0_K14. cbn [drun_K14]. rewrite Ha, Hr. reflexivity. Qed.
+
+Lemma drun14_cont : forall k (c c1 : dconn unit) dgs,
+  d_alive c = true -> length (d_raw c) <? dRecordHeaderLen = false ->
+  process0 c = (c1, Continue) ->
+  drun0_K14 (S k) c dgs = drun0_K14 k c1 dgs.
+Proof. intros k c c1 dgs Ha Hr Hp. unfold drun0_K14, process0 in *. cbn [drun_K14]. rewrite Ha, Hr, Hp. reflexivity. Qed.
+
+Lemma K14_step : forall k rest hand retry n entry frames,
+  drun0_K14 (3 + k) (st0 [] hand retry n entry frames) (k11_dgram :: rest) =
+  drun0_K14 k (st0 [] (hand ++ [7%N]) 0 (2 + n) entry frames) rest.
+Proof.
+  intros. change (3 + k) with (S (S (S k))).
+  rewrite drun14_load by reflexivity.
+  rewrite (drun14_cont (S k) _ (st0 (rec_hdr 22 1 0) (hand ++ [7%N]) 0 (1 + n) entry frames));
+    [|reflexivity|reflexivity|vm_compute; reflexivity].
+  rewrite (drun14_cont k _ (st0 [] (hand ++ [7%N]) 0 (2 + n) entry frames));
+    [reflexivity|reflexivity|reflexivity|vm_compute; reflexivity].
+Qed.
+
+Lemma K14_grows : forall k hand retry n entry frames,
+  exists retry' n',
+  drun0_K14 (3 * k + 1) (st0 [] hand retry n entry frames) (repeat k11_dgram k) =
+  (st0 [] (hand ++ repeat 7%N k) retry' n' entry frames, [], DBlocked).
+Proof.
+  induction k as [|k IH]; intros.
+  - exists retry, n. cbn [repeat]. rewrite app_nil_r. reflexivity.
+  - replace (3 * S k + 1) with (3 + (3 * k + 1)) by lia. cbn [repeat]. rewrite K14_step.
+    destruct (IH (hand ++ [7%N]) 0 (2 + n) entry frames) as (r' & n' & E).
+    exists r', n'. rewrite E. rewrite <- app_assoc. reflexivity.
+Qed.
+
+(* one frame (d_frames = 0, handLenAtEntry = 0), every bound exceeded *)
+Theorem K14_regression : forall B, exists dgs fuel,
+  let c := fst (fst (drun0_K14 fuel (dinit tt WMsg) dgs)) in
+  d_alive c = true /\ d_frames c = 0 /\ d_entry c = 0 /\ B < length (d_hand c).
 Proof.
   intros B. exists (repeat k11_dgram (S B)), (3 * S B + 1).
-  destruct (K11_grows (S B) tt [] [] 0 0 0 0 1 0 false false false false false 0) as (r & n & d & a & E).
-  change (dinit tt WMsg) with (k11_state [] tt [] [] 0 0 0 0 1 0 false false false false false 0).
-  cbn zeta. rewrite E. cbn [fst k11_state d_alive d_hand]. split; [reflexivity|].
+  destruct (K14_grows (S B) [] 0 0 0 0) as (r & n & E).
+  change (dinit tt WMsg) with (st0 [] [] 0 0 0 0).
+  cbn zeta. rewrite E. cbn [fst st0 d_alive d_hand d_frames d_entry]. repeat split; try reflexivity.
   rewrite app_length, repeat_length. cbn. lia.
 Qed.
 
-(* ---------- K12: more than maxHandshakeFragments reassembly buffers ---------- *)
+(* ---------- K13 (before 593205a): readDatagram recursed once per datagram of a foreign address ---------- *)
+Theorem K13_regression : forall n d rest,
+  snd (read_datagram_K13 (repeat Foreign n ++ rest) d) = snd (read_datagram_K13 rest (d + n)).
+Proof.
+  induction n as [|n IH]; intros d rest; cbn [repeat app read_datagram_K13].
+  - rewrite Nat.add_0_r. reflexivity.
+  - rewrite IH. replace (S d + n) with (d + S n) by lia. reflexivity.
+Qed.
+
+Corollary K13_depth_unbounded : forall B, exists dgs, B < snd (read_datagram_K13 dgs 0).
+Proof.
+  intros B. exists (repeat Foreign (S B) ++ []). rewrite K13_regression. cbn. lia.
+Qed.
+
+(* ---------- K12 (before 1e7de38): more than maxHandshakeFragments reassembly buffers ---------- *)
 (* a fragment (1 of 2 bytes) of message number seq / a complete empty message *)
 Definition k9_frag (seq : nat) : dgram :=
   FromPeer (rec_hdr 22 0 13 ++ [1; 0; 0; 2; N.of_nat (seq / 256); N.of_nat (seq mod 256); 0; 0; 0; 0; 0; 1; 9]%N).
@@ -694,9 +882,12 @@ Definition k9_msg : dgram :=
 Definition k9_input : list dgram :=
   map k9_frag (seq 0 255) ++ [k9_msg] ++ map k9_frag (seq 255 255) ++ [k9_msg] ++ map k9_frag (seq 510 255).
 
-Theorem K9_pending_exceeds :
-  let c := fst (fst (drun0 4000 (dinit tt WMsg) k9_input)) in
-  d_alive c = true /\ length (d_pend c) = 765 /\ d_calls c = 3.
+(* three message reads left 765 reassembly buffers; the code as it is refuses the 257th *)
+Theorem K12_regression :
+  (let c := fst (fst (drun0_K12 4000 (dinit tt WMsg) k9_input)) in
+   d_alive c = true /\ length (d_pend c) = 765 /\ d_calls c = 3) /\
+  (let c := fst (fst (drun0 4000 (dinit tt WMsg) k9_input)) in
+   d_alive c = false /\ length (d_pend c) = 256 /\ d_calls c = 2).
 Proof. vm_compute. repeat split; reflexivity. Qed.
 
 
@@ -704,34 +895,72 @@ Proof. vm_compute. repeat split; reflexivity. Qed.
 Definition non_expanding (dec : bool -> N -> bytes -> option bytes) : Prop :=
   forall ci typ body data, dec ci typ body = Some data -> length data <= length body.
 
-Theorem d_state_bounds : forall S on_msg on_ccs dec fresh dwell_time has_flight fix11,
+(* every reassembly buffer holds at most 65536 bytes of data and 8192 bytes of bitmask *)
+Lemma pend_bytes_bound : forall p : pending,
+  Forall (fun kv => buf_ok (snd kv)) p -> pend_bytes p <= length p * (64 * 1024 + 8 * 1024).
+Proof.
+  induction p as [|[k fb] t IH]; intros H; cbn [pend_bytes fold_right length snd]; [lia|].
+  inversion H as [|? ? Hb Ht]; subst. specialize (IH Ht). unfold pend_bytes in IH.
+  destruct Hb as (B1 & B2 & B3 & B4). cbn [snd] in *. unfold maxHandshake in B1. change 65536 with (64 * 1024) in B1.
+  assert (D : (fb_n fb + 7) / 8 < 8 * 1024 + 1) by (apply Nat.div_lt_upper_bound; lia).
+  rewrite B3, B4. lia.
+Qed.
+
+Theorem d_state_bounds : forall S on_msg on_ccs dec fresh dwell_time has_flight,
   non_expanding dec -> forall fuel (s : S) w dgs,
-  let c := fst (fst (drun S on_msg on_ccs dec fresh dwell_time has_flight fix11 fuel (dinit s w) dgs)) in
+  let c := fst (fst (drun S on_msg on_ccs dec fresh dwell_time has_flight fuel (dinit s w) dgs)) in
   d_retry c <= 17 /\ (d_alive c = true -> d_retry c <= maxUselessRecords) /\
   d_freads c <= 257 /\ (d_alive c = true -> d_freads c <= maxHandshakeFragments) /\
   Forall (fun kv => fb_n (snd kv) <= 64 * 1024 /\ length (fb_data (snd kv)) = fb_n (snd kv) /\
                     length (fb_recv (snd kv)) = (fb_n (snd kv) + 7) / 8) (d_pend c) /\
-  length (d_pend c) <= 257 * d_calls c /\ length (d_pend c) <= 256 * 256.
+  NoDup (map fst (d_pend c)) /\
+  length (d_pend c) <= maxHandshakeFragments /\
+  pend_bytes (d_pend c) <= maxHandshakeFragments * (64 * 1024 + 8 * 1024) /\
+  (d_alive c = true -> length (d_raw c) <= 18 * 1024 + 13).
 Proof.
-  intros S on_msg on_ccs dec fresh dwell_time has_flight fix11 Hd fuel s w dgs c.
-  pose proof (drun_inv S on_msg on_ccs dec fresh dwell_time has_flight fix11 Hd fuel (dinit s w) dgs
-                (dinit_inv S on_msg on_ccs dec fix11 Hd s w)) as [H R].
-  fold c in H, R. destruct H as (H1 & H2 & H3 & H4 & H5 & H6). destruct R as [R1 R2].
+  intros S on_msg on_ccs dec fresh dwell_time has_flight Hd fuel s w dgs c.
+  pose proof (drun_inv S on_msg on_ccs dec fresh dwell_time has_flight Hd fuel (dinit s w) dgs
+                (dinit_inv S on_msg on_ccs dec has_flight Hd s w)) as (H & R & J).
+  fold c in H, R, J. destruct H as (H1 & H2 & H3 & H4 & H5). destruct R as [R1 R2]. destruct J as (_ & _ & J).
   split; [exact R1|]. split; [exact R2|]. split; [exact H1|]. split; [exact H2|].
   split.
-  - eapply Forall_impl; [|exact H3]. intros kv (A & B & C & D). unfold maxHandshake in A.
-    change (64 * 1024) with 65536. repeat split; assumption.
-  - split; [|apply (keys_bound dec fix11 Hd); exact H4].
-    destruct (d_counted c); lia.
+  { eapply Forall_impl; [|exact H3]. intros kv (A & B & C & D). unfold maxHandshake in A.
+    change (64 * 1024) with 65536. repeat split; assumption. }
+  split; [exact H4|]. split; [exact H5|]. split.
+  - pose proof (pend_bytes_bound _ H3) as P. unfold maxHandshakeFragments in *.
+    assert (X : length (d_pend c) * (64 * 1024 + 8 * 1024) <= 256 * (64 * 1024 + 8 * 1024)) by (apply Nat.mul_le_mono_r; exact H5).
+    lia.
+  - intros A. destruct (J A) as (J2 & _). exact J2.
 Qed.
 
-Theorem d_progress : forall S on_msg on_ccs dec fresh dwell_time has_flight fix11,
+Theorem d_progress : forall S on_msg on_ccs dec fresh dwell_time has_flight,
   non_expanding dec -> forall fuel (s : S) w dgs,
   dmeasure S (dinit s w) dgs < fuel ->
-  snd (drun S on_msg on_ccs dec fresh dwell_time has_flight fix11 fuel (dinit s w) dgs) <> DOutOfFuel.
+  snd (drun S on_msg on_ccs dec fresh dwell_time has_flight fuel (dinit s w) dgs) <> DOutOfFuel.
 Proof.
-  intros S on_msg on_ccs dec fresh dwell_time has_flight fix11 Hd fuel s w dgs Hm.
-  apply drun_progress; [exact Hd | apply (dinit_inv S on_msg on_ccs dec fix11 Hd) | exact Hm].
+  intros S on_msg on_ccs dec fresh dwell_time has_flight Hd fuel s w dgs Hm.
+  apply drun_progress; [exact Hd | apply (dinit_inv S on_msg on_ccs dec has_flight Hd) | exact Hm].
+Qed.
+
+(* handBuf, for every sequence of datagrams: it exceeds its length at the entry of the running
+   frame of readRecordOrCCS by at most one datagram's payload, and while readHandshake reads a
+   message that frame started with at most 12 + 65536 - 1 bytes plus one datagram's payload per
+   frame of the retry recursion beneath it *)
+Theorem d_handbuf : forall S on_msg on_ccs dec fresh dwell_time has_flight,
+  non_expanding dec -> forall fuel (s : S) w dgs,
+  let c := fst (fst (drun S on_msg on_ccs dec fresh dwell_time has_flight fuel (dinit s w) dgs)) in
+  d_entry c <= length (d_hand c) /\
+  length (d_hand c) <= d_entry c + 18 * 1024 /\
+  (d_alive c = true -> d_want c = WMsg ->
+     d_entry c <= 12 + 64 * 1024 - 1 + d_frames c * (18 * 1024) /\
+     length (d_hand c) <= 12 + 64 * 1024 - 1 + (d_frames c + 1) * (18 * 1024)).
+Proof.
+  intros S on_msg on_ccs dec fresh dwell_time has_flight Hd fuel s w dgs c.
+  pose proof (drun_inv S on_msg on_ccs dec fresh dwell_time has_flight Hd fuel (dinit s w) dgs
+                (dinit_inv S on_msg on_ccs dec has_flight Hd s w)) as (_ & _ & (J1 & J3 & J)).
+  fold c in J1, J3, J. unfold maxCiphertext, handWaitD, dHeaderLen, maxHandshakeT in *.
+  split; [exact J1|]. split; [exact J3|]. intros A W. destruct (J A) as (_ & _ & J4). specialize (J4 W).
+  split; [exact J4|]. lia.
 Qed.
 
 (* one trip through the loop of readRecordOrCCS: the reassembly state and the handshake layer are
@@ -750,11 +979,19 @@ Theorem d_record_step : forall S on_ccs dec fresh dwell_time has_flight,
 Proof.
   intros S on_ccs dec fresh dwell_time has_flight Hd c Ha Hr Hraw c1.
   assert (R : retry_ok S c) by (split; [unfold maxUselessRecords in Hr; lia | intros _; exact Hr]).
-  pose proof (process_ok S (fun _ _ => None) on_ccs dec fresh dwell_time has_flight false Hd c Ha R Hraw) as (P1 & P2 & P3 & P4 & P5).
-  fold c1 in P1, P2, P3, P4, P5. destruct P1 as (S1 & S2 & S3 & S4 & S5 & S6 & S7 & S8).
-  split; [exact S1|]. split; [exact S7|]. split; [exact S6|]. split; [exact P3|].
-  intros Hne. destruct P4 as [P4|(dt & E1 & E2 & E3 & E4 & E5 & E6)]; [contradiction|]. split; assumption.
+  pose proof (process_ok S (fun _ _ => None) on_ccs dec fresh dwell_time has_flight Hd c Ha R Hraw) as (P1 & P2 & P3 & P4).
+  fold c1 in P1, P2, P3, P4. destruct P1 as (S1 & S2 & S3 & S4 & S5 & S6).
+  split; [exact S1|]. split; [exact S6|]. split; [exact S5|]. split; [exact P3|].
+  intros Hne. destruct P4 as [[P4 _]|(dt & E1 & E2 & E3 & E4 & E5 & E6 & E7)]; [contradiction|]. split; assumption.
 Qed.
+
+(* datagrams from other addresses: n of them cost n iterations of the loop of readDatagram and leave
+   the connection, with everything it holds, exactly as it was *)
+Theorem d_foreign : forall S on_msg on_ccs dec fresh dwell_time has_flight n k (c : dconn S) rest,
+  d_alive c = true -> length (d_raw c) < dRecordHeaderLen -> grown S c = false ->
+  drun S on_msg on_ccs dec fresh dwell_time has_flight (n + k) c (repeat Foreign n ++ rest) =
+  drun S on_msg on_ccs dec fresh dwell_time has_flight k c rest.
+Proof. intros. apply drun_foreign; assumption. Qed.
 
 Lemma d_id_non_expanding : non_expanding d_id.
 Proof. intros ci typ body data H. injection H as <-. apply le_n. Qed.
